@@ -394,9 +394,19 @@ def build_conversation(rnd, nex=6, fault_p=0.45, cfg=None, chunking=None, faults
             elif x < 0.8:
                 s.stop()
                 meta["exchanges"].append("stop")
-            elif x < 0.9:
+            elif x < 0.86:
                 s.err(rnd.choice([1, 4, 3]))
                 meta["exchanges"].append("err-while-established")
+            elif x < 0.93:
+                # a PDU that is not a Serial Notify and whose payload dribbles in late: the client re-enters its
+                # wait when the refresh deadline may already be over
+                it = next((i for i in cache.pool if i[0] == "p"), None)
+                b = prefix_pdu(cache.ver, it[1], 1) if it else cache_response(cache.ver, cache.session)
+                s.data(b[:8])
+                if len(b) > 8:
+                    s.wait(rnd.choice([1, 2, 5, 31, 59]))
+                    s.data(b[8:])
+                meta["exchanges"].append("late-junk-while-established")
             else:
                 deliver(rnd.choice([cache_reset(cache.ver), prefix_pdu(cache.ver, cache.pool[0][1], 1) if cache.pool[0][0] == "p" else cache_reset(cache.ver),
                                     hdr(cache.ver, 77, 0, 8)]))
